@@ -8,6 +8,8 @@ import (
 	"sort"
 	"strings"
 
+	"golang.org/x/tools/go/packages"
+
 	"d2verif/internal/core"
 )
 
@@ -20,7 +22,7 @@ func init() {
 			"(1) count before append — in d2graph.Object.Connect the new edge's index is computed (Edge.initIndex) on every path before the edge is appended to Graph.Edges, and in d2ir.Map.createEdge2 the edges are counted (GetEdges) before the new edge is appended to Map.Edges: counting after the append numbers from 1; Edge.Index of d2graph is written nowhere else on the compile path; " +
 			"(2) identity fields agree — the fields initIndex compares to decide that two connections are parallel are exactly the fields Edge.AbsID (with ArrowString) prints besides the index (Src, Dst, SrcArrow, DstArrow), each compared with the same field of the other edge: a field printed but not compared gives two connections the same ID, a field compared but not printed too; " +
 			"(3) EdgeID.Match compares the two indices with each other when both are given, and returns false from that comparison: otherwise an indexed reference hits every parallel connection; " +
-			"(4) in d2ir's _compileEdges the branch in which the lookup of a non-glob indexed ID found nothing reports an error before moving on; (5) every function of d2ir that resolves a connection ID (EdgeID.resolve: underscores and common container) uses only the resolved ID and map afterwards; (6) the result of DeleteEdge for a `null` written with an index is examined (a missing index is an error there too), and DeleteEdge renumbers the later parallel connections (open finding: it does not).",
+			"(4) in d2ir's _compileEdges the branch in which the lookup of a non-glob indexed ID found nothing reports an error before moving on; (5) every function of d2ir that resolves a connection ID (EdgeID.resolve: underscores and common container) uses only the resolved ID and map afterwards; (6) the result of DeleteEdge for a `null` written with an index is examined (a missing index is an error there too), and DeleteEdge renumbers the later parallel connections (open finding: it does not); (7) every function of d2ir that compares two paths element by element (EdgeID.Match and its helpers) also compares their lengths.",
 		NotCovered: "that the numbers are consecutive for a given history (index arithmetic in d2ir.GetEdges / d2oracle renumbering); renumbering after deletes (C38); uniqueness of IDs across boards",
 		Technique:  "static analysis: must-precede on go/cfg, who-may-write, writer/reader field-set agreement, guarded error discipline",
 		Run:        runC11,
@@ -309,6 +311,16 @@ func runC11(c *core.Check) {
 		if nres < 3 {
 			c.Fail("C11.resolved-supersedes", "resolved:inventory", token.NoPos, fmt.Sprintf("only %d calls of EdgeID.resolve found", nres))
 		}
+	}
+
+	// (7) the element-wise path comparisons behind Match and the other ID predicates compare lengths too
+	c.Rule("C11.slice-equality", "element-wise comparisons of two paths also compare their lengths")
+	if pk := c.P.Pkg("d2ir"); pk != nil {
+		issues, n := sliceEqualityIssues(c.P, []*packages.Package{pk})
+		for _, is := range issues {
+			c.Fail("C11.slice-equality", is.Key, is.Pos, is.Text+": (a -> b)[0] then also matches connections of a.x -> b.y, and an indexed reference changes more than one connection")
+		}
+		c.Decide(n >= 2, "C11.slice-equality", "slice-equality:inventory", token.NoPos, fmt.Sprintf("%d element-wise path comparisons in d2ir, each with a length comparison", n), "no element-wise comparisons found")
 	}
 
 	// (3) Match
